@@ -399,8 +399,14 @@ theorem tie_streamFilesAppend : Generated.streamFilesAppend = "files = append(fi
 
 /- The first statement is the empty-name guard added by the repair recorded as F15c (C15).  It is
 outside the model's domain: every theorem here takes `WF e`, which makes names non-empty, and the
-generator never emits an empty name; the guard itself is exercised by C15's hostile-apk inputs. -/
+generator never emits an empty name; the guard itself is exercised by C15's hostile-apk inputs.
+The second statement is the repeated-name guard added by the repair recorded as F05e (C05): a data
+section that names a file or link twice is refused before anything is laid out.  It is likewise outside
+this model's domain (the entries of one package carry distinct non-directory names: the conflict rules are
+about names shared BETWEEN packages); C05's model (`Model/Authentic.lean`, `installed_bytes_verified`) is
+the one that covers it, and corr:authentic exercises it with its dup-* shapes. -/
 theorem tie_stmtsLazyLoop : Generated.stmtsLazyLoop = (["if file.Header.Name == \"\" { return nil, fmt.Errorf(\"package %s contains a tar entry with an empty name\", pkg.Name) }",
+  "if file.Header.Typeflag != tar.TypeDir { if _, ok := seen[file.Header.Name]; ok { return nil, fmt.Errorf(\"package %s contains more than one tar entry named %q\", pkg.Name, file.Header.Name) } seen[file.Header.Name] = struct{}{} }",
   "installed, err := wh.WriteHeader(file.Header, tf, pkg)",
   "if err != nil { return nil, err }",
   "if installed && file.Header.Typeflag == tar.TypeReg { a.installedFiles[file.Header.Name] = pkg }",
